@@ -7,7 +7,7 @@ unset GOTOOLCHAIN GOSUMDB 2>/dev/null || true
 REPO="${VERIF_REPO:-/repo}"
 mkdir -p .build evidence replays lean/ShellOp/Generated
 ( cd extract && go build -o ../.build/extract . )
-./.build/extract --repo "$REPO" --facts lean/ShellOp/Generated/Facts.lean --skeletons .build/skeleton-setup >/dev/null 2>&1 || { mkdir -p .build/skeleton-setup; ./.build/extract --repo "$REPO" --facts lean/ShellOp/Generated/Facts.lean --skeletons .build/skeleton-setup; }
+./.build/extract --repo "$REPO" --facts lean/ShellOp/Generated/Facts.lean --trans lean/ShellOp/Generated/Trans.lean --skeletons .build/skeleton-setup >/dev/null 2>&1 || { mkdir -p .build/skeleton-setup; ./.build/extract --repo "$REPO" --facts lean/ShellOp/Generated/Facts.lean --trans lean/ShellOp/Generated/Trans.lean --skeletons .build/skeleton-setup; }
 ( cd lean && lake build )
 sed "s#=> /repo#=> $REPO#" harness/go.mod > .build/harness.mod
 cp "$REPO/go.sum" .build/harness.sum
